@@ -1,8 +1,8 @@
 """C08 - kdq-tree partitioner: structure, conservation of counts, routing, distributions, plot frame.
 
 Oracles: (1) icontract postconditions on build / fill that walk the public tree (binary, axis cycling,
-no small node split, parent = sum of children for every id, leaf order, totals); (2) an independent
-builder + point-wise router (models/kdq.py) whose tree and per-node counts must be reproduced exactly;
+no small node split, parent = sum of children for every id, leaf order, totals); (2) a point-wise
+router over the public splits (models/kdq.py): every node's count for every id must equal the number of points routed into its cell;
 (3) own corrected distributions / KL / two-cell Kulldorff statistic."""
 import math
 import warnings
@@ -29,9 +29,9 @@ RULE = (
 )
 ASSUMPTIONS = [
     "finite numeric data whose ranges do not overflow a double",
-    "the leaf rule (stop at <= count_ubound points, <= count_ubound distinct values, or a cell no larger than "
-    "int(cutpoint_proportion_lbound x feature range)) is taken from the class documentation and mirrored by the independent builder; "
-    "a node none of whose points lies above its midpoint is a leaf",
+    "the built tree is judged against the build data by the property's own clauses (binary, axis cycling, midpoint of the held points, "
+    "no node of <= count_ubound points split, counts = points held); *where* splitting stops beyond that is not part of the property - "
+    "the independent builder (documented leaf rule) is consulted for information only (counter trees_identical_to_reference_builder)",
 ]
 
 
@@ -155,45 +155,73 @@ def gen_points(rng):
     return fam, np.ascontiguousarray(X, dtype=float)
 
 
-def compare_trees(inode, mnode, ctx, base, depth=0):
-    """impl node vs model node, recursively; returns number of nodes compared or raises after reporting"""
+def convert(inode, leaves, depth=0):
+    """the implementation's public tree as a plain dict tree (same keys as models/kdq.py), or None when a child is missing"""
     if inode is None:
-        ctx.violation("C08/build/missing_child", "the implementation's tree has a missing child where the cell holds %d points" % mnode["count"], **base)
-        return -1
-    ileaf = is_leaf(inode)
-    if ileaf != mnode["leaf"]:
-        ctx.violation("C08/build/structure",
-                      "depth %d, %d points: implementation has %s, specification %s" % (
-                          depth, mnode["count"], "a leaf" if ileaf else "a split on axis %r at %r" % (inode.axis, inode.midpoint_at_axis),
-                          "a leaf" if mnode["leaf"] else "a split on axis %d at %r" % (mnode["axis"], mnode["mid"])), **base)
-        return -1
-    c = inode.num_samples_in_compared_subtrees.get("build")
-    if c != mnode["count"]:
-        ctx.violation("C08/build/count", "depth %d: node count %r, the node holds %d points" % (depth, c, mnode["count"]), **base)
-        return -1
-    if ileaf:
-        return 1
-    if inode.axis != mnode["axis"]:
-        ctx.violation("C08/build/axis", "depth %d: axis %r, expected %d" % (depth, inode.axis, mnode["axis"]), **base)
-        return -1
-    if float(inode.midpoint_at_axis) != mnode["mid"]:
-        ctx.violation("C08/build/midpoint", "depth %d axis %d: midpoint %r, min + range/2 of the node's points is %r" % (
-            depth, mnode["axis"], float(inode.midpoint_at_axis), mnode["mid"]), **base)
-        return -1
-    a = compare_trees(inode.left, mnode["left"], ctx, base, depth + 1)
-    if a < 0:
-        return -1
-    b = compare_trees(inode.right, mnode["right"], ctx, base, depth + 1)
-    if b < 0:
-        return -1
-    return 1 + a + b
+        return None
+    nd = {"count": inode.num_samples_in_compared_subtrees.get("build"), "depth": depth, "impl": inode}
+    if is_leaf(inode):
+        nd.update(leaf=True, leaf_no=len(leaves))
+        leaves.append(nd)
+        return nd
+    left = convert(inode.left, leaves, depth + 1)
+    right = convert(inode.right, leaves, depth + 1)
+    if left is None or right is None:
+        return None
+    nd.update(leaf=False, axis=inode.axis, mid=float(inode.midpoint_at_axis), left=left, right=right)
+    return nd
+
+
+def same_shape(a, b):
+    if a["leaf"] != b["leaf"]:
+        return False
+    if a["leaf"]:
+        return True
+    return a["axis"] == b["axis"] and a["mid"] == b["mid"] and same_shape(a["left"], b["left"]) and same_shape(a["right"], b["right"])
+
+
+def compare_trees(inode, mnode_unused, ctx, base, depth=0, X=None, cub=None, prop=None):
+    """Property-level verification of the built tree against the build data (the reference builder is consulted only for information:
+    *where* a tree stops splitting beyond the stated rules is not part of the property).  Returns (root, leaves, nodes) or None."""
+    leaves = []
+    root = convert(inode, leaves)
+    if root is None:
+        ctx.violation("C08/build/missing_child", "the built tree has an internal node with a missing child: its cell is not partitioned", **base)
+        return None
+    d = X.shape[1]
+    held = {id(nd): [] for nd in K.nodes_preorder(root)}
+    for i, row in enumerate(X):
+        for nd in K.route(root, row)[1]:
+            held[id(nd)].append(i)
+    n_nodes = 0
+    for nd in K.nodes_preorder(root):
+        n_nodes += 1
+        pts = held[id(nd)]
+        if nd["count"] != len(pts):
+            ctx.violation("C08/build/count", "depth %d: node count %r, the node's cell holds %d of the built points" % (nd["depth"], nd["count"], len(pts)), **base)
+            return None
+        if nd["leaf"]:
+            continue
+        if nd["axis"] != nd["depth"] % d:
+            ctx.violation("C08/build/axis", "depth %d: split on axis %r, the axes must cycle with depth (expected %d)" % (nd["depth"], nd["axis"], nd["depth"] % d), **base)
+            return None
+        if len(pts) <= cub:
+            ctx.violation("C08/build/small_node_split", "a node holding %d <= count_ubound=%d points was split" % (len(pts), cub), **base)
+            return None
+        col = [float(X[i, nd["axis"]]) for i in pts]
+        lo, hi = min(col), max(col)
+        mid = lo + (hi - lo) / 2
+        if nd["mid"] != mid:
+            ctx.violation("C08/build/midpoint", "depth %d axis %d: split at %r, the midpoint of the range of the node's points is %r" % (nd["depth"], nd["axis"], nd["mid"], mid), **base)
+            return None
+    ref_root, _ = K.build(X, cub, prop)
+    ctx.count("trees_identical_to_reference_builder" if same_shape(root, ref_root) else "trees_with_other_stopping_than_reference_builder")
+    return root, leaves, n_nodes
 
 
 def pair_nodes(inode, mnode, out):
-    out.append((inode, mnode))
-    if not mnode["leaf"]:
-        pair_nodes(inode.left, mnode["left"], out)
-        pair_nodes(inode.right, mnode["right"], out)
+    for nd in K.nodes_preorder(mnode):
+        out.append((nd["impl"], nd))
     return out
 
 
@@ -213,9 +241,10 @@ def run_edge(case, ctx):
         ctx.violation("C08/edge/one_dimensional_input", "build on 1-d data must not create a tree", **base)
         return
     P.build(X.copy())
-    mroot, mleaves = K.build(X, cub, 0.0)
-    if compare_trees(P.node, mroot, ctx, base) < 0:
+    r = compare_trees(P.node, None, ctx, base, X=X, cub=cub, prop=0.0)
+    if r is None:
         return
+    mroot, mleaves, _ = r
     before = [l.num_samples_in_compared_subtrees.get("build") for l in P.leaves]
     if P.fill(X[:, 0].copy(), "flat") is not None or any("flat" in nd.num_samples_in_compared_subtrees for nd, _, _ in walk(P.node)):
         ctx.violation("C08/edge/one_dimensional_fill", "fill with 1-d data must leave the tree untouched", **base)
@@ -304,10 +333,10 @@ def run_case(case, ctx):
         return
     ctx.count("contract_evaluations", getattr(P, "_verif_evals", 0))
     ctx.count("trees_built")
-    mroot, mleaves = K.build(X, cub, prop)
-    nn = compare_trees(P.node, mroot, ctx, base)
-    if nn < 0:
+    r = compare_trees(P.node, None, ctx, base, X=X, cub=cub, prop=prop)
+    if r is None:
         return
+    mroot, mleaves, nn = r
     ctx.count("nodes_compared", nn)
     if len(mleaves) >= 8:
         ctx.count("trees_8plus_leaves")
